@@ -605,6 +605,14 @@ def stmt_cells(full_forstep=True, rng=None):
             for i, (kind, tys, t) in enumerate(out)]
 
 
+def direct_modules():
+    """multi-file programs judged directly: (key, {file name: text}, main file)"""
+    mod = ('Wir definieren eine Nummer öffentlich als eine Zahl.\nWir nennen die öffentliche Kombination aus\n'
+           '\tder öffentlichen Variable wert mit Standardwert (1 als Nummer),\neine Kiste, und erstellen sie so:\n\t"eine leere Kiste"\n')
+    main = 'Binde Kiste aus "mod" ein.\nDie Kiste k ist eine leere Kiste.\n'
+    return [("module=STRUCT_IMPORTED_ALONE default=typedef-in-Variable-field", {"mod.ddp": mod, "main.ddp": main}, "main.ddp")]
+
+
 def direct_cells():
     """statement sequences outside the tables, judged directly by the property"""
     out = []
@@ -959,11 +967,11 @@ def main():
     for i in sorted(want_ctx):
         op = cells[i][1]
         pairs = op in ("TER_FALLS", "BIN_AND", "BIN_OR")
-        if quick and not pairs and ck.rng.random() >= 0.06:
+        if quick and not pairs and ck.rng.random() >= 0.04:
             continue
         for combo, text in multiblock_variants(cells[i], pairs):
-            if quick and pairs and op == "TER_FALLS" and sum(1 for x in combo if x != "v") > 2:
-                continue
+            if quick and pairs and op == "TER_FALLS" and sum(1 for x in combo if x != "v") > 1 and not (combo[1] == "v" and sum(1 for x in combo if x != "v") == 2):
+                continue      # quick: single positions and (value-if-true, value-if-false) pairs
             mb_variants.append((len(mb_variants), i, combo, text))
     mres, problems = frontend_batch(cx, b, [(n, ctx_stmt("VI", "V", text, n)) for (n, i, combo, text) in mb_variants])
     if problems:
@@ -1077,6 +1085,23 @@ def main():
             continue
         n_viol += 1
         report("%s verdict=%s" % (dcs[j][0], v), v, out, dcs[j][1])
+    for key, files, mainf in direct_modules():
+        d = os.path.join(sc, re.sub(r"[^A-Za-z0-9]+", "_", key))
+        os.makedirs(d, exist_ok=True)
+        for fn, txt in files.items():
+            with open(os.path.join(d, fn), "w") as fh:
+                fh.write(txt)
+        fr1 = run_cellx(cx, b, [dict(id="m", file=os.path.join(d, mainf), src=files[mainf])])
+        if not fr1 or fr1[0].get("diags") or fr1[0].get("panic") or fr1[0].get("faulty"):
+            continue       # the frontend does not accept it
+        r = b.compile(os.path.join(d, mainf), os.path.join(d, "prog"), cwd=d)
+        ck.count()
+        ck.nontrivial(key)
+        v = classify(r)
+        if v not in ("ok", "frontend-reject"):
+            n_viol += 1
+            ck.violation("%s verdict=%s" % (key, v), "the frontend accepts the program, kddp answers %s: %s" % (v, " ".join(excerpt(r["out"]).split())[:400]),
+                         dict(files=files, main=mainf, verdict=v, output=excerpt(r["out"]), how="cd <dir with the files>; DDPPATH=<build> kddp kompiliere main.ddp -o main.o"))
     ex, eacc = sts, sacc
     # ---- evidence -----------------------------------------------------------------------------------
     ck.cov.update(dict(
